@@ -595,6 +595,59 @@ Theorem C08_chunk_c13_total_c12 : forall fuel (d : chunk Model.C12.pc) s,
   ok_or_err (run_flat (Model.C13.chunk_read Model.C12.pc (fun _ => Model.C12.pc_read fuel) fuel d) s).
 Proof. exact c13_chunk_read_total_c12. Qed.
 
+
+(* ================================================================ chat.Message from the peer (NBT form) *)
+From GoMC Require Import Model.C08_chat Proofs.C08_chat.
+
+(* Message.ReadFrom on EVERY byte string: a component or an error - never a panic, never out of fuel once the
+   fuel exceeds the input length - and a component means input was consumed.  The model (Model/C08_chat.v) is
+   the control flow of Message.UnmarshalNBT / TranslateArgs.UnmarshalNBT / nestedReader over package nbt's
+   typed decoder (C01's dty / dany / dskip = the TRANSLATED gen_ty / gen_any / gen_rawRead, C03_unmarshal_translated),
+   with the struct fields and their declared types taken from the tag tables regenerated on every run *)
+Theorem C08_chat_total : forall fuel s, (length s + 1 < fuel)%nat -> prog s (run_flat (chat_read fuel) s).
+Proof. exact chat_read_total. Qed.
+(* ... for a value of every declared type, at every nesting level, with every depth budget of the decoder *)
+Theorem C08_chat_value_total : forall fuel t lvl dep id s, t <> COther -> (length s + 1 < fuel)%nat ->
+  prog s (run_flat (cval fuel t lvl dep id) s).
+Proof. exact cval_prog. Qed.
+(* every declared type of the regenerated tables of Message, ClickEvent, HoverEvent is one the model knows *)
+Theorem C08_chat_types_known : chat_types_known = true.
+Proof. exact types_known. Qed.
+(* what is left over is a suffix of the input: nothing is given back, nothing is read twice *)
+Theorem C08_chat_suffix : forall fuel s a rest, run_flat (chat_read fuel) s = FOk a rest -> exists used, s = used ++ rest.
+Proof. exact chat_read_suffix. Qed.
+(* the tag types a component / a translation-argument list accepts; any other id is an error without a read *)
+Theorem C08_chat_tag_types : forall fuel lvl dep id s,
+  (id <> idString -> id <> idCompound -> id <> idList -> run_flat (cval (S fuel) CMsg lvl dep id) s = FErr eChatType) /\
+  (id <> idList -> id <> idByteArray -> id <> idIntArray -> id <> idLongArray ->
+     run_flat (cval (S fuel) CArgs lvl dep id) s = FErr eChatType).
+Proof. intros. split; [apply hook_accepts|apply args_accepts]. Qed.
+(* the nesting limit (fix 76b3415): a decoder stacked above chat.maxNestingDepth is an error on every input, so at
+   most 513 of them are ever stacked whatever the length of the input - before the fix only the input length
+   bounded them (130000 levels in 650006 bytes: fatal stack overflow on the implementation) *)
+Theorem C08_chat_nest_limit : nest_limit = 512 /\ forall fuel lvl dep id s, nest_limit < lvl ->
+  is_ok (run_flat (cval (S fuel) CMsg lvl dep id) s) = false /\ is_ok (run_flat (cval (S fuel) CArgs lvl dep id) s) = false.
+Proof. split; [exact nest_limit_value|exact hook_above_limit]. Qed.
+(* the limit is met exactly: 512 lists nested in a component decode, 513 are refused (the input of the report) *)
+Theorem C08_chat_limit_exact :
+  chat_outcome 3000 (deep_lists 512) = (0, 0) /\ chat_outcome 3000 (deep_lists 513) = (1, 0).
+Proof. split; [exact deep_at_limit|exact deep_over_limit]. Qed.
+(* the field tables of the model ARE the struct tag tables of Message / ClickEvent / HoverEvent rendered from the
+   source on this run (key = nbt tag name, declared type -> decoder) *)
+Theorem C08_chat_rows_translated : msg_rows = rows Gen.C17gen.chat_Message_fields /\
+  click_rows = rows Gen.C17gen.chat_ClickEvent_fields /\ hover_rows = rows Gen.C17gen.chat_HoverEvent_fields.
+Proof. exact rows_translated. Qed.
+Example C08_chat_total_ex : chat_outcome 40 [10; 8; 0; 4; 116; 101; 120; 116; 0; 1; 120; 0; 7] = (0, 1).
+Proof. vm_compute. reflexivity. Qed.
+
 Print Assumptions C08_chunk_c13_total.
 Print Assumptions C08_chunk_c13_total_wire.
 Print Assumptions C08_chunk_c13_total_c12.
+Print Assumptions C08_chat_total.
+Print Assumptions C08_chat_value_total.
+Print Assumptions C08_chat_types_known.
+Print Assumptions C08_chat_suffix.
+Print Assumptions C08_chat_tag_types.
+Print Assumptions C08_chat_nest_limit.
+Print Assumptions C08_chat_limit_exact.
+Print Assumptions C08_chat_rows_translated.
